@@ -550,19 +550,32 @@ class Arr:
             raise Inconclusive("symbolic exponent not modelled")
         return self._new(_uf(lambda e: base ** (int(e) if float(e) == int(e) else float(e)), 1)(self.a))
 
+    def _is_np_scalar(self):
+        # element access on the numpy model yields 0-d arrays; they stand for numpy *scalars*, which are immutable:
+        # `acc = base; acc += x` must rebind acc and leave base alone (found through negative seed C14-neg1)
+        return self.kind == "numpy" and self.a.ndim == 0
+
     def __iadd__(self, o):
+        if self._is_np_scalar():
+            return self + o
         self._inplace(o, _add)
         return self
 
     def __isub__(self, o):
+        if self._is_np_scalar():
+            return self - o
         self._inplace(o, _sub)
         return self
 
     def __imul__(self, o):
+        if self._is_np_scalar():
+            return self * o
         self._inplace(o, _mul)
         return self
 
     def __itruediv__(self, o):
+        if self._is_np_scalar():
+            return self / o
         self._inplace(o, _div)
         return self
 
